@@ -70,6 +70,12 @@ class C03(CacheProp):
                         fails.append("op %d: RemainingCost()=%s but MaxCost %d - accounted %d" % (n, l, max_cost, last_dump[1]))
                 elif fs[0] not in ("rem", "metrics", "max", "get", "ttl", "iter"):
                     last_dump = None
+            # "the costs the cache accounts for its RESIDENT keys": at drained points the accounting charges exactly the
+            # keys the map holds (the quiescent comparison of C13; no colliding keys in C03's profiles)
+            if "profile:collide" not in case.tags:
+                from .c13 import PROP as C13P
+                fails += [f + " (capacity is held for a key that is not resident, or a resident key is not charged)"
+                          for f in C13P.oracle(case, il) if "store keys" in f]
             return fails
         ref = policygen.PolRef(case, il)
         fails = list(ref.fails)
